@@ -130,7 +130,7 @@ static void gen_action(Rng &r, unsigned len, bool subst, Bytes &a, unsigned numU
     else { w8(a, PUSH_BYTE); w8(a, u8(i64(int(r.below(5)) - 2))); w8(a, POP_RET); }
 }
 
-static Bytes build_pass(const PassDef &pd, size_t base) {
+static Bytes build_pass(const PassDef &pd, size_t base, bool zerocol) {
     // trie over glyph columns
     struct Node { std::map<unsigned, int> next; std::vector<unsigned> rules; };
     std::vector<Node> nodes(1);
@@ -152,7 +152,8 @@ static Bytes build_pass(const PassDef &pd, size_t base) {
     w16(p, numRules); w16(p, 0);
     const size_t o_pc = p.size(); w32(p, 0); const size_t o_rc = p.size(); w32(p, 0); const size_t o_ac = p.size(); w32(p, 0); w32(p, 0);
     w16(p, u32(numStates)); w16(p, u32(numTrans)); w16(p, u32(numSuccess)); w16(p, numCols);
-    w16(p, numCols); w16(p, 0); w16(p, 0); w16(p, 0);
+    w16(p, numCols + (zerocol ? 1 : 0)); w16(p, 0); w16(p, 0); w16(p, 0);
+    if (zerocol) { w16(p, 0); w16(p, 0); w16(p, 0); }     // glyph 0 (.notdef: unmapped characters, and what a recycled slot holds) shares the first letter's column
     for (unsigned g = 0; g < numCols; ++g) { w16(p, g + 1); w16(p, g + 1); w16(p, g); }     // glyph g+1 -> column g
     // rule map offsets for success states in state order
     std::vector<unsigned> rulemap; std::vector<unsigned> orm;
@@ -182,9 +183,9 @@ static Bytes build_pass(const PassDef &pd, size_t base) {
 }
 
 // program encoding in Fault.a (OVR_SILFPROG): [np, nsub, numUser, ijust_is_np, rtl, then per pass: maxloop, nrules, per rule: len, match[len], conslen, cons[conslen], alen, action[alen]]
-struct SynthHdr { bool badlb = false; unsigned flags = 0; std::vector<unsigned> just; unsigned nlb = 0; };   // nlb: the first nlb passes are line-break passes (iSubst = nlb)   // Silf flags byte (bit 0: line-end contextuals), justification levels (4 attribute numbers each)
+struct SynthHdr { bool badlb = false; bool zerocol = false; unsigned flags = 0; std::vector<unsigned> just; unsigned nlb = 0; };   // nlb: the first nlb passes are line-break passes (iSubst = nlb)   // Silf flags byte (bit 0: line-end contextuals), justification levels (4 attribute numbers each)
 static void encode_prog(const std::vector<PassDef> &passes, unsigned nsub, unsigned numUser, bool ijust_np, bool rtl, const SynthHdr &h, std::vector<i64> &a) {
-    a = {i64(passes.size()), i64(nsub), i64(numUser), ijust_np ? 1 : 0, rtl ? 1 : 0, i64(h.flags | (h.badlb ? 2u : 0u)), i64(h.just.size() / 4)};
+    a = {i64(passes.size()), i64(nsub), i64(numUser), ijust_np ? 1 : 0, rtl ? 1 : 0, i64(h.flags | (h.badlb ? 2u : 0u) | (h.zerocol ? 4u : 0u)), i64(h.just.size() / 4)};
     for (unsigned v : h.just) a.push_back(v);
     a.push_back(h.nlb);
     for (auto &pd : passes) { a.push_back(i64(pd.maxloop | (pd.prectx << 8) | (pd.pcons.empty() ? 0u : 0x400u))); a.push_back(i64(pd.rules.size()));
@@ -195,7 +196,7 @@ static bool decode_prog(const std::vector<i64> &a, std::vector<PassDef> &passes,
     size_t i = 0; auto get = [&](i64 &v) { if (i >= a.size()) return false; v = a[i++]; return true; };
     i64 np, v; if (!get(np) || np < 1 || np > 16) return false; if (!get(v)) return false; nsub = unsigned(v < 0 ? 0 : v > np ? np : v); if (!get(v)) return false; numUser = unsigned(v & 7);
     if (!get(v)) return false; ijust_np = v != 0; if (!get(v)) return false; rtl = v != 0;
-    if (!get(v)) return false; h.flags = unsigned(v & 1); h.badlb = (v & 2) != 0;   // bit 1: the line-end glyph id names no glyph of the font i64 nj; if (!get(nj) || nj < 0 || nj > 3) return false; for (i64 q = 0; q < 4 * nj; ++q) { if (!get(v)) return false; h.just.push_back(unsigned(v & 0xFF)); }
+    if (!get(v)) return false; h.flags = unsigned(v & 1); h.badlb = (v & 2) != 0; h.zerocol = (v & 4) != 0;   // bit 1: the line-end glyph id names no glyph of the font i64 nj; if (!get(nj) || nj < 0 || nj > 3) return false; for (i64 q = 0; q < 4 * nj; ++q) { if (!get(v)) return false; h.just.push_back(unsigned(v & 0xFF)); }
     if (!get(v)) return false; h.nlb = unsigned(v < 0 ? 0 : v); if (h.nlb > nsub) h.nlb = nsub;
     for (i64 p = 0; p < np; ++p) { PassDef pd; i64 nr; if (!get(v)) return false; pd.maxloop = unsigned(v & 0xFF); pd.prectx = unsigned((v >> 8) & 3); const bool haspc = (v & 0x400) != 0; if (!get(nr) || nr < 1 || nr > 32) return false;
         if (haspc) { i64 pl; if (!get(pl) || pl < 0 || pl > 250) return false; for (i64 q = 0; q < pl; ++q) { if (!get(v)) return false; pd.pcons.push_back(u8(v)); } }
@@ -252,7 +253,7 @@ static void gen_prog(u64 seed, std::vector<i64> &out) {
         }
         passes.push_back(pd);
     }
-    SynthHdr h; if (r.chance(1, 3)) { h.flags = 1; h.badlb = r.chance(1, 5); } if (r.chance(1, 4)) h.nlb = r.below(nsub + 1); if (r.chance(1, 3)) { unsigned nj = 1 + r.below(2); for (unsigned q = 0; q < 4 * nj; ++q) h.just.push_back(r.below(6)); }
+    SynthHdr h; if (r.chance(1, 3)) { h.flags = 1; h.badlb = r.chance(1, 5); } h.zerocol = r.chance(1, 3); if (r.chance(1, 4)) h.nlb = r.below(nsub + 1); if (r.chance(1, 3)) { unsigned nj = 1 + r.below(2); for (unsigned q = 0; q < 4 * nj; ++q) h.just.push_back(r.below(6)); }
     encode_prog(passes, nsub, numUser, r.chance(1, 2), r.chance(1, 4), h, out);
 }
 
@@ -287,7 +288,7 @@ void silf_override(Store &st, const Fault &f) {
     w16(s, NGLYPH_USED); w16(s, NGLYPH_USED);
     for (unsigned c = 0; c <= NGLYPH_USED; ++c) w16(s, 4 + 2 * (NGLYPH_USED + 1) + 2 * c);
     for (unsigned c = 0; c < NGLYPH_USED; ++c) w16(s, c + 1);
-    for (unsigned i = 0; i < np; ++i) { set32(s, o_passes + 4 * i, u32(s.size())); Bytes p = build_pass(passes[i], s.size()); s.insert(s.end(), p.begin(), p.end()); }
+    for (unsigned i = 0; i < np; ++i) { set32(s, o_passes + 4 * i, u32(s.size())); Bytes p = build_pass(passes[i], s.size(), hdr.zerocol); s.insert(s.end(), p.begin(), p.end()); }
     set32(s, o_passes + 4 * np, u32(s.size()));
     Bytes t; w32(t, 0x00020000); w16(t, 1); w16(t, 0); w32(t, 12); t.insert(t.end(), s.begin(), s.end());
     st.tables[mktag("Silf")] = t;
